@@ -31,9 +31,9 @@ prop("C01", BACKPROP,
      assumptions=["dag(): acyclicity of the back-edge graph (a strict ghost order `older` on contexts, every edge from a younger to an older context) is a precondition of consumersFirst / backward / BackPropagate that no operation's contract establishes (no global allocation clock in the heap model)", "termination of the recursive walk is not proved (partial correctness)"],
      expl="Local half proved: the seed is all ones of the root's shape; backward marks the target spent before invoking the edge function, accumulates by element-wise addition (accumulateGrad), walks every back edge, stops at the first error, writes only tracked contexts, keeps the graph invariant. The order of the walk is proved as well: consumersFirst (depth-first search with a visited map, recursive closure, reversal loop) returns the root first, each reachable tracked context exactly once and before every tracked context it holds an edge to (topological order), under the acyclicity precondition dag(). That every tensor therefore receives the total derivative (each edge once, after its source is complete, summed) is the paper lemma CHAIN, cross-checked by the bounded stand-in.")
 prop("C02", G(RULES),
-     bounded=[("TestRuleValues", "values of the sigma-operation rules (Sum/Max/Min/Avg/Var/Std/MeanAlong, Dot, MatMul) and a cross-check of all 33 rules against central finite differences", "all operand shapes of rank <= 3 with sizes <= 3, every dim, every tracked subset, non-uniform upstream weights (the op is followed by Mul with a random untracked tensor)")],
+     bounded=[("TestRuleValues", "cross-check of all 33 rules (their values are proved) against the closed-form vector-Jacobian products and central finite differences", "all operand shapes of rank <= 3 with sizes <= 3, every dim, every tracked subset, non-uniform upstream weights (the op is followed by Mul with a random untracked tensor)")],
      paper=["derivative table of DESIGN.md 3.5 (calculus)", "PROD, SUM-EXT (DESIGN.md section 8); LEX is machine-checked (lemmas valSucc ... lexUnsq, lexSq)"],
-     expl="Every backward rule (33 constructors, 43 closures) is symbolically executed against the interface contracts of the tensor methods: the rule never fails after an accepted forward call, its result has exactly the operand's shape and is a spent untracked tensor, and (element-wise, relocation and fibre-position rules) its value is upstream times the derivative from the calculus table, with definedness obligations where a finite result is demanded.")
+     expl="Every backward rule (33 constructors, 43 closures) is symbolically executed against the interface contracts of the tensor methods: the rule never fails after an accepted forward call, its result has exactly the operand's shape and is a spent untracked tensor, and (element-wise, relocation and fibre-position rules) its value is upstream times the derivative from the calculus table, with definedness obligations where a finite result is demanded. The rules of the reductions and products are proved as well: Sum/Max/Min/Avg/MeanAlong (fibre position), VarAlong and StdAlong (the fibre mean carried through UnSqueeze and broadcasting Sub / Div by a chain of intermediate facts), Dot (gy[J - last] * other[J]) and MatMul (grad a = gy . b^T, grad b = a^T . gy, with the transposed operand as existential witness).")
 prop("C03", M(UN + CMP + ["ElMax", "ElMin"] + AR + ["Equals", "Broadcast"]) + ["cputensor.broadcastForBinaryOp", "cputensor.targetBroadcastDims", "validator.ValidateBinaryFuncDimsMatch", "validator.ValidateBroadcastSourceDimsAgainstTargetDims", "validator.ValidateInputDims"],
      bounded=[("TestElementwise", "cross-check of the proved element-wise recursions, the broadcast generator and equals", "all shapes of rank <= 4 with sizes <= 3 (and every broadcast-compatible pair), values including zeros, negatives, ties and 1e300-scale magnitudes")],
      paper=[],
